@@ -52,7 +52,7 @@ class SimOutputStream(OutputStream):
         self.faults_fired = 0
         self._closed = False
         self.after_write = None
-        self.max_calls = 200000
+        self.max_calls = 50000
 
     def write(self, string):
         idx = self.n_calls
